@@ -9,7 +9,7 @@ from .. import boolfn
 from ..context import Ctx
 from ..kernel import expand, expand1, xshow
 from ..loader import AnalysisError, FuncInfo, norm_stmt
-from ..paths import Path, show
+from ..paths import Ev, N, Path, show
 from ..resolve import own_nodes
 
 EXPLANATION = (
@@ -310,9 +310,19 @@ def rule_visit(ctx: Ctx):
     feeds = []
     for p in ctx.paths(fn, inline=None, exc_edges="none", unroll=2):
         evs = p.events
-        work = next((f"$c{e.idx}" for e in evs if e.kind == "call" and show(e.term.func) in ("deque", "list") and not e.term.args), None)
+        wev = next((e for e in evs if e.kind == "call" and show(e.term.func) in ("deque", "list", "collections.deque")), None)
+        work = f"$c{wev.idx}" if wev is not None else None
+        if wev is not None and wev.term.args:
+            # created with its first element(s): a feeding site like append
+            init = expand1(wev.term.args[0], evs)
+            feeds.append((Ev("call", ast.Call(func=ast.Attribute(value=N(work), attr="extend", ctx=ast.Load()),
+                                              args=[init], keywords=[]), wev.node, wev.fn), p))
         if work is None:
-            work = next((f"$l{e.idx}" for e in evs if e.kind == "alloc" and isinstance(e.term, ast.List)), None)
+            wal = next((e for e in evs if e.kind == "alloc" and isinstance(e.term, ast.List)), None)
+            work = f"$l{wal.idx}" if wal is not None else None
+            if wal is not None and wal.term.elts:
+                feeds.append((Ev("call", ast.Call(func=ast.Attribute(value=N(work), attr="extend", ctx=ast.Load()),
+                                                  args=[wal.term], keywords=[]), wal.node, wal.fn), p))
         visited = next((f"$c{e.idx}" for e in evs if e.kind == "call" and show(e.term.func) == "set" and not e.term.args), None)
         if work is None or visited is None:
             rep.unrecognised("C09.visit", fn.loc(), "worklist / visited set not found (expected deque()/[] and set())")
@@ -355,7 +365,7 @@ def rule_visit(ctx: Ctx):
                 itx.attr == "transitions" and isinstance(itx.value, ast.Name) and itx.value.id.startswith("$c")
             rep.check(ok, "C09.visit", e.loc(), "what enters the worklist is the target of every outgoing transition of the state just visited (forward, unfiltered)",
                       fn.key, norm_stmt(e.node), feeds=txt)
-        elif arg is not None and show(arg) == start:
+        elif arg is not None and (show(arg) == start or (isinstance(arg, (ast.List, ast.Tuple)) and [show(x) for x in arg.elts] == [start])):
             rep.ok("C09.visit", e.loc(), "the visit starts from the given state")
         else:
             txt = show(arg)
